@@ -8,8 +8,10 @@
      post.seq     public self_seq
      post.ret     values returned by new_data() during the step (Svs!PublishedSeqs)
      post.cbsaw   local_sv as seen inside on_missing_data (Svs!CallbackSaw)
-   The choices C18 leaves open (when suppression is entered, timer lengths, steady emission) are
+   The choices C18 leaves open (when suppression is entered, timer lengths, steady emission, whether the
+   announcement of PublishThenRecv goes out before or after the packet is handled) are
    existentially quantified in Svs and pinned here by post.state / post.timer / post.out.
+   Events may carry more fields than the actions read (x: which member of a byte-level packet class was delivered).
 
    A step that can only be explained by a named deviation (Dev) is accepted and reported as
    <<"DEVUSED", trace, event, choice>>; the harness turns that into a finding.
@@ -51,7 +53,7 @@ PostOk == LET p == Tr[l].post IN
 \* name the observed open choices before Svs enumerates them
 Hint == hint' = [t |-> (IF Relax = "timer" THEN -1 ELSE Tr[l].post.timer),
                  s |-> (IF Relax = "state" THEN "any" ELSE Tr[l].post.state)]
-Report(c) == (c \in {"devNoSeq", "devAgg"}) => PrintT(<<"DEVUSED", tid, l, c>>)
+Report(c) == (c \in {"devNoSeq", "devAgg", "devPostponed"}) => PrintT(<<"DEVUSED", tid, l, c>>)
 
 TRecv == /\ Ev("RecvSV") /\ Hint
          /\ \E c \in {"norm", "reject", "devNoSeq"} : RecvSV(Tr[l].p, 0, c, Tr[l].r) /\ PostOk /\ Report(c)
@@ -61,8 +63,12 @@ TPub == /\ Ev("Publish") /\ Hint
         /\ \E m \in 1..Tr[l].n : Publish(Tr[l].n, 0, m) /\ PostOk
 TTick == /\ Ev("Tick") /\ Hint
          /\ Tick(Tr[l].d) /\ PostOk
+\* n publications and then packet p, handled before the timer task ran (r: publications inside the callback)
+TPtr == /\ Ev("PublishThenRecv") /\ Hint
+        /\ \E c \in {"norm", "reject", "devNoSeq"}, e \in {"late", "early", "devPostponed"} :
+             PublishThenRecv(Tr[l].n, Tr[l].p, 0, c, Tr[l].r, e) /\ PostOk /\ Report(c) /\ Report(e)
 
-TNext == TRecv \/ TFire \/ TPub \/ TTick
+TNext == TRecv \/ TFire \/ TPub \/ TTick \/ TPtr
 TSpec == TInit /\ [][TNext]_tvars
 
 TView == <<View, tid, l>>
